@@ -221,16 +221,47 @@ def op_api_derive(st, hid_new, hid, seed):
         if a.tags:
             return a.without_tags(sorted(a.tags, key=repr)[0])
         return a.tagged(htags.HTagA())
-    new = None
+    from pytools.tag import Taggable
+
+    def derive_any(o, r):
+        if isinstance(o, pt.DictOfNamedArrays):
+            names = sorted(o._data)
+            pick = r.choice(names)
+            return pt.make_dict_of_named_arrays(
+                {n: (derive(o._data[n]) if n == pick else o._data[n])
+                 for n in names}, tags=o.tags)
+        if isinstance(o, pt.Array):
+            return derive(o)
+        if isinstance(o, Taggable):
+            # FunctionDefinition, Call, DistributedSend, Axis, ...
+            return o.tagged(htags.HTagB(r.randint(60, 63)))
+        return None
+    # the object the derivation starts from: the root, or (half of the time)
+    # some taggable node INSIDE the graph -- a FunctionDefinition, a Call, a
+    # DistributedSend, an interior array -- which has usually been hashed or
+    # keyed already as part of the graph; sometimes hash it right now
+    if rng.random() < 0.5:
+        inner = [v for v in walker.pytato_nodes(obj) if isinstance(v, Taggable)]
+        rare = [v for v in inner if not isinstance(v, pt.Array)
+                and not isinstance(v, pt.DictOfNamedArrays)]
+        if rare and rng.random() < 0.6:
+            obj = rare[rng.randrange(len(rare))]
+        elif inner:
+            obj = inner[rng.randrange(len(inner))]
+    if rng.random() < 0.6:
+        try:
+            hash(obj)
+        except TypeError:
+            pass
+    new = twin = None
     try:
-        if isinstance(obj, pt.DictOfNamedArrays):
-            names = sorted(obj._data)
-            pick = rng.choice(names)
-            new = pt.make_dict_of_named_arrays(
-                {n: (derive(obj._data[n]) if n == pick else obj._data[n])
-                 for n in names}, tags=obj.tags)
-        elif isinstance(obj, pt.Array):
-            new = derive(obj)
+        state = rng.getstate()
+        new = derive_any(obj, rng)
+        # the twin: the same derivation applied to a pristine copy of the
+        # object (no cached hash, no cached key digest): must be equal to
+        # *new* in every respect
+        rng.setstate(state)
+        twin = derive_any(pickle.loads(pickle.dumps(obj)), rng)
     except Exception:  # noqa: BLE001
         new = None
     if new is None:
@@ -238,7 +269,34 @@ def op_api_derive(st, hid_new, hid, seed):
     st.h[hid_new] = new
     st.meta[hid_new] = {"origin": ("api-derive", hid)}
     _taint(st, hid_new, hid)
-    return {"derived": True, **_info(st, hid_new)}
+    out = {"derived": True, "twin": False, **_info(st, hid_new)}
+    if twin is not None:
+        st.h[hid_new + "t"] = twin
+        st.meta[hid_new + "t"] = {"origin": ("api-derive-twin", hid)}
+        _taint(st, hid_new + "t", hid)
+        out["twin"] = True
+    return out
+
+
+def op_loopy_codegen(st, hid):
+    """run loopy code generation on the graph: loopy's own key builder and
+    code generator touch the tag instances the graph shares with others"""
+    import loopy as lp
+    import pytato as pt
+    from loopy.tools import LoopyKeyBuilder
+    obj = st.h[hid]
+    try:
+        if isinstance(obj, pt.Array):
+            obj = pt.make_dict_of_named_arrays({"_out": obj})
+        if not isinstance(obj, pt.DictOfNamedArrays):
+            return "skipped"
+        o = pt.transform.deduplicate(pt.tag_all_calls_to_be_inlined(obj))
+        bp = pt.generate_loopy(o)
+        LoopyKeyBuilder()(bp.program)
+        lp.generate_code_v2(bp.program).device_code()
+        return "ok"
+    except Exception as e:  # noqa: BLE001
+        return "failed:" + type(e).__name__
 
 
 def op_hash(st, hid, deep=False):
